@@ -29,7 +29,7 @@ ASSUMPTIONS = [
     "fitted estimators are third-party; only what black_it passes to and takes from them is judged",
 ]
 REQUIRED_COUNTERS = {f"nomod_{k}": 6 for k in G.SAMPLER_KINDS}
-REQUIRED_COUNTERS.update({"bestbatch_calls_on_extended_history": 20, "bestbatch_calls_on_unrelated_history": 8, "histories_with_points_outside_the_space": 20, "stub_subclasses_with_their_own_pool": 15, "stub_predictions_as_list_or_tuple": 25, "stub_predictions_with_infinities": 6, "stub_histories_with_nonfinite_losses": 15, "nomod_second_call_on_extended_history": 30, "direct_sample_batch_other_size": 60, "estimator_fits_observed": 40, "second_history_same_length": 40, "stub_calls": 100, "real_surrogate_calls": 30, "bestbatch_proposals": 200, "extreme_histories": 50, "boundary_ties": 20})
+REQUIRED_COUNTERS.update({"stub_long_history_with_default_pool": 6, "bestbatch_calls_on_extended_history": 20, "bestbatch_calls_on_unrelated_history": 8, "histories_with_points_outside_the_space": 20, "stub_subclasses_with_their_own_pool": 15, "stub_predictions_as_list_or_tuple": 25, "stub_predictions_with_infinities": 6, "stub_histories_with_nonfinite_losses": 15, "nomod_second_call_on_extended_history": 30, "direct_sample_batch_other_size": 60, "estimator_fits_observed": 40, "second_history_same_length": 40, "stub_calls": 100, "real_surrogate_calls": 30, "bestbatch_proposals": 200, "extreme_histories": 50, "boundary_ties": 20})
 SHARDS = {"quick": 16, "thorough": 16}
 SHARD_WATCHDOG = {"quick": 1500, "thorough": 10800}
 
@@ -171,6 +171,14 @@ def run_case(desc, ctx):
             if kind == "real" and desc["sampler"] == "GaussianProcess" and rng.random() < 0.08:
                 n = int(rng.integers(505, 530))    # beyond the sampler's "big dataset" threshold (500): still the whole history
                 cnt("gp_histories_above_500")
+            default_pool = False
+            if kind == "stub" and rng.random() < 0.1:
+                # late in a long calibration with the DEFAULT pool (1000 x batch size): hundreds of history rows times thousands of candidates
+                bs = int(rng.integers(4, 9))
+                n = int(rng.integers(550, 1300))
+                pool_n = 1000 * bs
+                default_pool = True
+                cnt("stub_long_history_with_default_pool")
             pts, losses, lk = G.gen_history(rng, space, n)
             if kind == "stub" and rng.random() < 0.35:
                 # non-finite losses are part of "the given history" too (what a user surrogate does with them is its business)
@@ -239,7 +247,7 @@ def run_case(desc, ctx):
                     cnt("stub_predictions_with_infinities")
                 cls = Stub
                 with quiet():
-                    sampler = Stub(bs, random_state=int(rng.integers(2**31)), max_deduplication_passes=int(rng.choice([0, 2, 5])), candidate_pool_size=pool_n)
+                    sampler = Stub(bs, random_state=int(rng.integers(2**31)), max_deduplication_passes=int(rng.choice([0, 2, 5])), candidate_pool_size=None if default_pool else pool_n)
                 smp = {"kind": "stub", "batch_size": bs, "pool": pool_n, "predict": pmode}
             else:
                 smp = G.gen_sampler_desc(rng, desc["sampler"], batch_size=bs)
@@ -338,8 +346,20 @@ def run_case(desc, ctx):
                     bad(f"{smp['kind']}: candidate pool has {None if pool is None else len(pool)} rows, candidate_pool_size is {pool_n}", w)
                     break
                 if not np.array_equal(Xp, pool):
-                    bad(f"{smp['kind']}: predict() was not evaluated on the candidate pool", w)
-                    break
+                    # the pool may legitimately be predicted in several pieces: the predict calls made during this sample_batch, put
+                    # together in order, must then be the pool, and the predictions are the pieces put together
+                    first_call = seen["batches"][bi - 1][2] if bi > 0 else 0
+                    pieces = seen["predict"][first_call:npred]
+                    try:
+                        Xall = np.vstack([np.asarray(x_).reshape(-1, pool.shape[1]) for x_, _p in pieces])
+                        pall = None if any(p_ is None for _x, p_ in pieces) else np.concatenate([np.asarray(p_, dtype=float).ravel() for _x, p_ in pieces])
+                    except ValueError:
+                        Xall, pall = None, None
+                    if Xall is None or not np.array_equal(Xall, pool):
+                        bad(f"{smp['kind']}: predict() was not evaluated on the candidate pool (neither in one call nor in consecutive pieces)", w)
+                        break
+                    cnt("pools_predicted_in_pieces")
+                    pred = pall
                 if pred is None or np.any(np.isnan(np.asarray(pred, dtype=float))):
                     continue
                 why = check_selection(pool, pred, res, req)
